@@ -51,7 +51,8 @@ DEFAULTS["DUMP_PRE_ERROR_STATE"] = True
 DEFAULTS["ENABLE_COMPLEX_ASSERTIONS"] = True
 
 PROFILE = gen.profile(
-    p_shared=0.3,
+    p_shared=0.4,
+    p_syncshared=0.5,
     p_item_fault=0.08,
     p_flush_fault=0.08,
     p_wrap=0.5,
